@@ -1,6 +1,7 @@
 package main
 
 import (
+	"go/token"
 	"fmt"
 	"go/constant"
 	"go/types"
@@ -209,6 +210,81 @@ func runC08(c *Ctx) {
 				}
 			}
 		}
+		// math.Exp is a binary square-and-multiply over the words of the exponent. The structure that makes it compute
+		// base^exponent: every bit position of every word is visited (a counting loop 0..wordBits-1 with no other
+		// exit), the base is squared on every visit, multiplied into the result exactly when the current low bit is
+		// set, and the word is shifted right by one per visit. (This pins the present algorithm: a rewrite with a
+		// different algorithm has to update this rule.)
+		fex := c.Facts(ex)
+		var sq, mulRes ssa.CallInstruction
+		for _, cs := range callSites(ex, `^Int\.Mul$`) {
+			a := cs.Common().Args
+			t0, t1, t2 := fex.tr.term(nil, a[0], 0), fex.tr.term(nil, a[1], 0), fex.tr.term(nil, a[2], 0)
+			if t0 == "Int#0" && t1 == "Int#0" && t2 == "Int#0" {
+				sq = cs
+			} else if t0 == t1 && t2 == "Int#0" && strings.HasPrefix(t0, "big.NewInt(1)") {
+				mulRes = cs
+			}
+		}
+		okShape, dShape := sq != nil && mulRes != nil, "squaring base.Mul(base, base) and result.Mul(result, base) found"
+		if okShape {
+			// the loop counter: the phi compared with the word size in the header of the innermost loop around the squaring
+			var head *ssa.BasicBlock
+			for _, b := range ex.Blocks {
+				if iff, ok := b.Instrs[len(b.Instrs)-1].(*ssa.If); ok && b.Dominates(sq.Block()) && b != sq.Block() {
+					if bo, ok := iff.Cond.(*ssa.BinOp); ok && bo.Op == token.LSS {
+						if _, isPhi := bo.X.(*ssa.Phi); isPhi {
+							head = b
+						}
+					}
+				}
+			}
+			if head == nil {
+				okShape, dShape = false, "no counting loop `i < wordBits` around the squaring"
+			} else {
+				bo := head.Instrs[len(head.Instrs)-1].(*ssa.If).Cond.(*ssa.BinOp)
+				cnt := bo.X.(*ssa.Phi)
+				lim, isC := constInt(bo.Y)
+				init, step, okl := phiInitStepOf(c, ex, cnt)
+				self := fex.tr.term(nil, cnt, 0)
+				okCount := isC && (lim == 64 || lim == 32) && okl && init == "0" && step == "("+self+" + 1)"
+				// no exit from the loop body other than the header's own: every block dominated by the header's body
+				// successor and reaching the back edge has all successors inside the loop
+				body := head.Succs[0]
+				okNoBreak := true
+				for _, b := range ex.Blocks {
+					if b != head && body.Dominates(b) {
+						for _, su := range b.Succs {
+							if su != head && !body.Dominates(su) {
+								okNoBreak = false
+							}
+						}
+					}
+				}
+				// squaring on every iteration; multiply only under (word & 1) == 1; word shifted every iteration
+				back := fex.LoopBackStates(`^Int\.Mul$`)
+				okSq := len(back) > 0
+				for _, stt := range back {
+					if !stt.lits["called:Int#0.Mul(Int#0, Int#0)"] {
+						okSq = false
+					}
+				}
+				okBit, wBit := allHave(fex.At(mulRes), mustRe(`^\(`+PH+` & 1\) == 1$`))
+				okShift := false
+				for _, b := range ex.Blocks {
+					for _, ins := range b.Instrs {
+						if p, ok := ins.(*ssa.Phi); ok && p.Block() == head && p != cnt {
+							if _, stp, ok2 := phiInitStepOf(c, ex, p); ok2 && stp == "("+fex.tr.term(nil, p, 0)+" >> 1)" {
+								okShift = true
+							}
+						}
+					}
+				}
+				okShape = okCount && okNoBreak && okSq && okBit && okShift
+				dShape = fmt.Sprintf("counter 0..%d step +1: %v; no early exit: %v; squaring on every iteration: %v; multiply iff low bit set: %v (%s); word >>= 1: %v", lim, okCount, okNoBreak, okSq, okBit, wBit, okShift)
+			}
+		}
+		c.Ob("C08-R4", "math.Exp visits every bit position of every exponent word: square always, multiply iff the bit is set, shift by one", c.FnPos(ex), okShape, dShape)
 		u := c.Fn("common/math:U256")
 		okU := false
 		for _, b := range u.Blocks {
